@@ -3,11 +3,14 @@
    N / Z / positive stay Coq datatypes; no Extract Constant. *)
 From Coq Require Extraction.
 From Coq Require Import ExtrOcamlBasic.
-From CandidV Require Import Consts model.Base model.Hash.
+From CandidV Require Import Consts model.Base model.Hash model.Leb.
 Extraction Language OCaml.
 Set Extraction Optimize.
 Extraction "model.ml"
   N.add N.mul N.sub N.div N.modulo N.eqb N.ltb N.leb N.compare N.of_nat N.to_nat
   Z.add Z.mul Z.sub Z.opp Z.of_N Z.to_N Z.abs_N Z.ltb Z.leb Z.eqb
   Hash.idl_hash Hash.idl_hash_derive Hash.hash_spec Hash.get_id Hash.label_eqb Hash.label_cmp Hash.label_hash
-  Hash.unique_after_sort Hash.sort_ids Hash.strictly_ascending.
+  Hash.unique_after_sort Hash.sort_ids Hash.strictly_ascending
+  Leb.leb_val Leb.sleb_val Leb.terminated Leb.split_leb Leb.enc_u Leb.enc_s
+  Leb.write_unsigned64 Leb.encode_nat128 Leb.write_signed64 Leb.encode_int128 Leb.nat_encode Leb.int_encode
+  Leb.nat_decode Leb.int_decode Leb.decode_nat128 Leb.decode_int128 Leb.de_nat Leb.de_int Leb.de_int_of_nat.
